@@ -28,6 +28,7 @@ class BucketStore(object):
         self.now = None  # datetime (naive UTC) or None -> real clock
         self.crash_after = None  # crash after this many further mutations
         self.owner = None  # tag of the cassette currently calling (set by the harness)
+        self.gate = None  # optional callable(op, key) invoked *before* every mutation (may block: interleavings)
 
     def clock(self):
         n = self.now if self.now is not None else datetime.datetime.utcnow()
@@ -42,12 +43,16 @@ class BucketStore(object):
                 raise InjectedCrash('crash after mutation %s %s' % (op, key))
 
     def put(self, key, body, **kw):
+        if self.gate is not None:
+            self.gate('put', key)
         if isinstance(body, str):
             body = body.encode('utf-8')
         self.objects[key] = (bytes(body), self.clock(), kw)
         self._mutated('put', key)
 
     def delete(self, key):
+        if self.gate is not None:
+            self.gate('delete', key)
         if key in self.objects:
             del self.objects[key]
             self._mutated('delete', key)
@@ -98,6 +103,8 @@ class _Collection(object):
         self.prefix = prefix or ''
 
     def _keys(self):
+        if self.store.gate is not None:
+            self.store.gate('list', self.prefix)
         return sorted((k for k in self.store.objects if k.startswith(self.prefix)), key=lambda k: k.encode('utf-8'))
 
     def __iter__(self):
